@@ -525,7 +525,7 @@ type c07Pack struct {
 }
 
 func runC07(c *fw.Ctx) {
-	maxSub := c.Pick(3, 4)
+	maxSub := c.Pick(2, 4)
 	c.Bound("universe", "empty blob, two near-identical 300-byte blobs, 3-step edit chain of 2 KiB blobs, 70 KiB blob, two near-identical trees, commit, tag (11 objects) + a 60-version edit chain requested as a whole")
 	c.Bound("max_subset_size", maxSub)
 	c.Bound("windows", []int{0, 1, 10, 50})
